@@ -89,6 +89,19 @@ impl Exec {
     }
 }
 
+impl Exec {
+    /// Rewrites the property prefix of a violation class (a scenario of one property re-used
+    /// under another reports under the property it is registered with).
+    pub fn relabel(mut self, from: &str, to: &str) -> Self {
+        if let Verdict::Violation { class, .. } = &mut self.verdict {
+            if let Some(rest) = class.strip_prefix(from) {
+                *class = format!("{to}{rest}");
+            }
+        }
+        self
+    }
+}
+
 pub trait Scenario: Sync + Send {
     fn name(&self) -> &'static str;
     /// Number of runs for the tier.
